@@ -103,10 +103,15 @@ class Report:
         which stands on its own."""
         from .model import AnalysisError
 
-        if self.failed_pins and not self.findings:
+        if self.failed_pins and not self.unlisted_findings():
             raise AnalysisError("; ".join(self.failed_pins))
         for p in self.failed_pins:
             self.note("pin not met (reported violations stand on their own): " + p)
+
+    def unlisted_findings(self) -> List[Finding]:
+        """findings that are not recorded as known: only these count as a positively identified violation."""
+        known = load_known()
+        return [f for f in self.findings if not ((match_known(known, f) or {}).get("status") == "known")]
 
     # -- finish --------------------------------------------------------------
     def finish(self) -> int:
